@@ -254,6 +254,15 @@ class _Ops:
             op = None
             if isinstance(fn, ast.Attribute) and fn.attr in RULER_OPS:
                 target, op = fn.value, fn.attr
+            elif isinstance(fn, ast.Call) and isinstance(fn.func, ast.Name) and fn.func.id == "getattr" and len(fn.args) == 2:
+                # getattr(<ruler>, verb)(names, True) with verb bound to a literal by the caller
+                nm = self._const(fn.args[1], binds)
+                if isinstance(nm, ast.IfExp):
+                    t = self._const(nm.test, binds)
+                    if isinstance(t, ast.Constant):
+                        nm = nm.body if t.value else nm.orelse
+                if isinstance(nm, ast.Constant) and nm.value in RULER_OPS:
+                    target, op = fn.args[0], nm.value
             elif isinstance(fn, ast.Name):
                 # switch = ruler.enable if enabled else ruler.disable
                 for d in self._defs(f, fn.id):
